@@ -1,5 +1,6 @@
 import MokapotVerif.Generated.Effects
 import MokapotVerif.Props.C05
+import MokapotVerif.Props.C15
 /-!
 # C08 — Fixed seed gives bit-identical results (PARTIAL)
 
@@ -71,5 +72,13 @@ theorem C08_completion_order_irrelevant {ρ : Type} (c : Nat) (hc : 0 < c) (rows
     (hp₁ : pieces₁.Perm ps₁) (hp₂ : pieces₂.Perm ps₂) :
     Brew.reindex pieces₁.flatten train = Brew.reindex pieces₂.flatten train :=
   C05_materialise_invariant c c hc hc rows train hnd hlt ps₁ pieces₁ ps₂ pieces₂ hps₁ hps₂ hp₁ hp₂
+
+/-- the seeded shuffle inside `groupby_max` (protein level) cannot influence a tie-free result:
+any two shuffle+sort arrangements (= any two seeds) give the same protein entries -/
+theorem C08_groupby_max_seed_irrelevant_tiefree {α : Type} (le : α → α → Bool) (hle : TotalPre le)
+    (P : Picked.Proteins) (R s1 s2 : List (Picked.Entry α)) (htf : Picked.TieFree le P R)
+    (hp1 : s1.Perm R) (hs1 : Picked.KeySorted le P s1) (hp2 : s2.Perm R) (hs2 : Picked.KeySorted le P s2) :
+    (Picked.pickedOf P s1).Perm (Picked.pickedOf P s2) :=
+  Picked.C15_seed_independent_when_tie_free le hle P R s1 s2 htf hp1 hs1 hp2 hs2
 
 end Mk
